@@ -7,6 +7,7 @@ import Pangaea.Drv.C02
 import Pangaea.Drv.C16
 import Pangaea.Drv.C17
 import Pangaea.Drv.C05
+import Pangaea.Drv.C09
 
 def dispatch (line : String) : String :=
   let toks := (line.trimAscii.toString.splitOn " ").filter (· ≠ "")
@@ -20,6 +21,7 @@ def dispatch (line : String) : String :=
     | "C16" :: rest => Pangaea.Drv.C16.handle rest
     | "C17" :: rest => Pangaea.Drv.C17.handle rest
     | "C05" :: rest => Pangaea.Drv.C05.handle rest
+    | "C09" :: rest => Pangaea.Drv.C09.handle rest
     | _ => ("bad-op", "bad-op")
   r.1 ++ "\t" ++ r.2
 
